@@ -513,9 +513,9 @@ func prevTip(log []types.ChainIndex, i int, tree *gen.Tree) types.ChainIndex {
 func init() {
 	register(&Prop{
 		ID: "C05", Run: runC05, Quick: 700, Thorough: 20000, Level: "exploration",
-		Rule: "one run = C02-style history interleaved with pool submissions drawn from the reference ledger at the tip or at a stale basis (ancestor or other branch): valid v1/v2 sets with parent/child chains over ephemeral outputs, contract formation/revision/resolution, 1 run in 12 with ~0.9-block-weight transactions to reach eviction; after every submission, every AddBlocks call and every coreutils.MineBlock: the reported pool (v1 then v2) validates prefix by prefix on a fresh mid-state of the tip with ledger supplements and ledger proofs, a block assembled from it is valid, mined blocks are accepted by the node and a linear twin, and every previously accepted transaction that disappeared has a cause the statement allows (confirmed, an input touched by a block applied or reverted since last seen, no longer valid on top of tip+pool, pool over its weight limit); distinct = abstract trace; non-trivial = a reorg reverting blocks under a non-empty history",
-		Real: []string{"chain.Manager (pool, reorg pool updates)", "chain.DBStore", "coreutils.MineBlock"},
-		Stub: []string{"disk: simdisk.DB"},
+		Rule:        "one run = C02-style history interleaved with pool submissions drawn from the reference ledger at the tip or at a stale basis (ancestor or other branch): valid v1/v2 sets with parent/child chains over ephemeral outputs, contract formation/revision/resolution, 1 run in 12 with ~0.9-block-weight transactions to reach eviction; after every submission, every AddBlocks call and every coreutils.MineBlock: the reported pool (v1 then v2) validates prefix by prefix on a fresh mid-state of the tip with ledger supplements and ledger proofs, a block assembled from it is valid, mined blocks are accepted by the node and a linear twin, and every previously accepted transaction that disappeared has a cause the statement allows (confirmed, an input touched by a block applied or reverted since last seen, no longer valid on top of tip+pool, pool over its weight limit); distinct = abstract trace; non-trivial = a reorg reverting blocks under a non-empty history",
+		Real:        []string{"chain.Manager (pool, reorg pool updates)", "chain.DBStore", "coreutils.MineBlock"},
+		Stub:        []string{"disk: simdisk.DB"},
 		Assumptions: []string{"retention is checked one-sidedly: a disappearance is flagged only when none of the allowed causes applies", "eviction order under a full pool is not checked, only that eviction happens solely when the pool is near its limit"},
 	})
 }
